@@ -343,16 +343,11 @@ class Aggregator(AbstractAggregator):
         if isinstance(item, int):
             return self.fits[item]
         elif isinstance(item, slice):
-            if item.start is not None:
-                if item.start >= 0:
-                    offset += item.start
-                else:
-                    offset = len(self) + item.start
-            if item.stop is not None:
-                if item.stop >= 0:
-                    limit = len(self) - item.stop - offset
-                else:
-                    limit = len(self) + item.stop
+            if item.step not in (None, 1):
+                return self.fits[item]
+            start, stop, _ = item.indices(len(self))
+            offset += start
+            limit = max(stop - start, 0)
         return self._new_with(offset=offset, limit=limit)
 
     def _fits_for_query(self, query: str) -> List[m.Fit]:
